@@ -386,6 +386,10 @@ func (c c20FatalCore) Write(zapcore.Entry, []zapcore.Field) error { return nil }
 func (c c20FatalCore) Sync() error                                { return nil }
 
 func (w *c20World) logger() *zap.Logger {
+	if os.Getenv("C20_NET_LOG") != "" {
+		l, _ := zap.NewDevelopment(zap.WithFatalHook(&w.fatal))
+		return l
+	}
 	return zap.New(c20FatalCore{zapcore.FatalLevel}, zap.WithFatalHook(&w.fatal))
 }
 
@@ -615,6 +619,13 @@ func (w *c20World) toSync(from *c20Peer, b []byte) (error, error) {
 		}
 	}
 	herr := w.srv.handleMessage(from, m)
+	if os.Getenv("C20_NET_LOG") != "" {
+		d := ""
+		if blk, ok := m.Payload.(*block.Block); ok {
+			d = fmt.Sprint("index ", blk.Index)
+		}
+		fmt.Printf("TO-SYNC %s %s -> %v (stage %s)\n", m.Command, d, herr, w.stage())
+	}
 	w.collect()
 	return herr, nil
 }
@@ -625,6 +636,13 @@ func (w *c20World) toSource(b []byte) error {
 		return fmt.Errorf("request of the syncing node does not decode: %v", err)
 	}
 	herr := w.src.handleMessage(w.atSrc, m)
+	if os.Getenv("C20_NET_LOG") != "" {
+		d := ""
+		if g, ok := m.Payload.(*payload.GetBlockByIndex); ok {
+			d = fmt.Sprint("start ", g.IndexStart, " count ", g.Count)
+		}
+		fmt.Printf("TO-SOURCE %s %s -> %v\n", m.Command, d, herr)
+	}
 	w.collect()
 	if herr != nil && !errors.Is(herr, storage.ErrKeyNotFound) {
 		return fmt.Errorf("the source server failed to handle %s sent by the syncing server: %v", m.Command, herr)
@@ -1099,8 +1117,8 @@ func (w *c20World) cleanRounds() error {
 					}
 				}
 			}
-			return fmt.Errorf("stall: %d clean rounds (ping or tick, every request delivered to the source, every answer delivered in order) without progress: block height %d of %d, header height %d, stage %s, module block height %d, bQueue (lastQ %d, %d queued), bSyncQueue (lastQ %d, %d queued); last drop: %s",
-				stall, w.n.BC.BlockHeight(), w.b.N.BC.BlockHeight(), w.n.BC.HeaderHeight(), w.stage(), before.mh, lq, w.srv.bQueue.Cap()-capLeft, slq, w.srv.bSyncQueue.Cap()-scap, w.lastDrop)
+			return fmt.Errorf("stall: %d clean rounds (ping or tick, every request delivered to the source, every answer delivered in order) without progress: block height %d of %d, header height %d, stage %s, sync point %d, module block height %d, bQueue (lastQ %d, %d queued), bSyncQueue (lastQ %d, %d queued); last drop: %s",
+				stall, w.n.BC.BlockHeight(), w.b.N.BC.BlockHeight(), w.n.BC.HeaderHeight(), w.stage(), w.srv.stateSync.GetStateSyncPoint(), before.mh, lq, w.srv.bQueue.Cap()-capLeft, slq, w.srv.bSyncQueue.Cap()-scap, w.lastDrop)
 		}
 	}
 	return nil
